@@ -695,7 +695,15 @@ fn check_coverage(case: &Json, stats: &mut Stats) -> Verdict {
 }
 
 /// (properties, signature tail, program, documented outcome)
-const PROBES: [(&[&str], &str, &str, &str); 2] = [
+const PROBES: [(&[&str], &str, &str, &str); 3] = [
+    (
+        // (the hidden twin, `b := *(mut bool true); x := if b { [] } else { [1] }; ...`, gives 2: there `x~` is an
+        // iterator over int and the collected empty array is an `[int]`)
+        &["C04"],
+        "pruned-branch-narrows-empty-array-label",
+        "x := if true { [] } else { [1] }; y := x~ $]; r := if z: [string] = y { 1 } else { 2 }; r",
+        "value 2",
+    ),
     (
         &["C04", "C07"],
         "closure-creation-folds-failing-operation",
